@@ -5,8 +5,10 @@ package autoconf
 // C45 harness.  Modes (VERIF_MODE):
 //   payload : emit the byte payload of configuration versions 1..8 (base64)
 //   update  : serve payload C45_VER on the fixed URL C45_URL and let a real Client fetch it into
-//             the cache root C45_ROOT (run by the driver under strace to record the write programme)
-//   read    : for every {"dir": root} input line run GetCached() on that (crash-state) cache and
+//             the cache root C45_ROOT (run by the driver under strace to record the write programme);
+//             C45_CACHESIZE = n >= 1 configures WithCacheSize(n), 0 = the default
+//   read    : for every {"dir": root, "cs": n} input line run GetCached() on that (crash-state) cache
+//             with a client configured with the same cache size as the interrupted writer and
 //             classify the result: version v >= 1 (deep-equal to payload v), 0 = built-in fallback,
 //             -1 = anything else (corrupt)
 
@@ -73,6 +75,14 @@ func TestVerifC45(t *testing.T) {
 	}
 }
 
+// c45Opts: the cache-size configuration is part of the state space (0 = leave the default)
+func c45Opts(cs int, opts ...Option) []Option {
+	if cs >= 1 {
+		opts = append(opts, WithCacheSize(cs))
+	}
+	return opts
+}
+
 func c45Update(t *testing.T) {
 	root, rawURL, ver := os.Getenv("C45_ROOT"), os.Getenv("C45_URL"), vEnvInt("C45_VER", 1)
 	u, err := url.Parse(rawURL)
@@ -89,10 +99,18 @@ func c45Update(t *testing.T) {
 	})}
 	go srv.Serve(ln)
 	defer srv.Close()
-	c, err := NewClient(WithCacheDir(root), WithURL(rawURL), WithRefreshInterval(time.Nanosecond),
-		WithFallback(c45Sentinel))
+	cs := vEnvInt("C45_CACHESIZE", 0)
+	c, err := NewClient(c45Opts(cs, WithCacheDir(root), WithURL(rawURL), WithRefreshInterval(time.Nanosecond),
+		WithFallback(c45Sentinel))...)
 	if err != nil {
 		t.Fatal(err)
+	}
+	wantCS := DefaultCacheSize
+	if cs >= 1 {
+		wantCS = cs
+	}
+	if c.cacheSize != wantCS {
+		t.Fatalf("cache size %d not configured (client has %d)", wantCS, c.cacheSize)
 	}
 	ctx, cancel := context.WithTimeout(context.Background(), 20*time.Second)
 	defer cancel()
@@ -104,7 +122,7 @@ func c45Update(t *testing.T) {
 		got = resp.Config.AutoConfVersion
 	}
 	dir, _ := c.getCacheDir()
-	vEmit(M{"ev": "updated", "ver": ver, "got": got, "err": e, "cacheDir": dir})
+	vEmit(M{"ev": "updated", "ver": ver, "got": got, "err": e, "cacheDir": dir, "cs": c.cacheSize})
 }
 
 func c45Read(t *testing.T) {
@@ -121,11 +139,12 @@ func c45Read(t *testing.T) {
 	for i, raw := range vIn() {
 		var in struct {
 			Dir string `json:"dir"`
+			CS  int    `json:"cs"`
 		}
 		if err := json.Unmarshal(raw, &in); err != nil {
 			t.Fatal(err)
 		}
-		c, err := NewClient(WithCacheDir(in.Dir), WithURL(rawURL), WithFallback(c45Sentinel))
+		c, err := NewClient(c45Opts(in.CS, WithCacheDir(in.Dir), WithURL(rawURL), WithFallback(c45Sentinel))...)
 		if err != nil {
 			t.Fatal(err)
 		}
